@@ -731,6 +731,18 @@ theorem C20_palette_zip_counterexample :
     (colourLoop 10 (List.range 11) id).length = 11 := by
   decide
 
+/-- labels are compared, never tested for truth: `C20_row_routing`, `chooseObs_eq` and
+    `C20_residual_routing` hold for every label type and every label value, `0`, `0.0` and `''`
+    included.  Testing the label for truth instead (`observable or biom_types[0]`) replaces a requested
+    falsy label that is not the first one by the first observable: -/
+theorem C20_falsy_observable_counterexample :
+    let rows : List (Row Nat Nat Nat Nat) :=
+      [⟨some 1, some 7, 0, 10, none, 0⟩, ⟨some 1, some 0, 0, 20, none, 0⟩]
+    specObs rows (some 0) = some 0 ∧ chooseObs rows (some 0) = .ok (some 0) ∧
+    (pdAddData rows (some 0)).1 = .ok [⟨some 1, [(0, 20)]⟩] ∧
+    chooseObsTruthy (fun o => o == 0) rows (some 0) = .ok (some 7) := by
+  intro rows; exact ⟨rfl, rfl, rfl, rfl⟩
+
 /-- `add_prediction(bulk_probs=None)`: one trace with exactly the observable's samples -/
 theorem C20_prediction_scatter (rows : List (Row ι ο τ ν)) (observable : Option ο) (o : ο)
     (hO : specObs rows observable = some o) (hex : ∃ r ∈ rows, r.obs = some o) :
